@@ -9,10 +9,13 @@ def concatenate(arrays, axis=0, compressed_axes=None):
     check_consistent_fill_value(arrays)
     arrays = [arr if isinstance(arr, GCXS) else GCXS(arr, compressed_axes=(axis,)) for arr in arrays]
     axis = normalize_axis(axis, arrays[0].ndim)
+    if any(x.ndim != arrays[0].ndim for x in arrays):
+        raise ValueError("all the input arrays must have the same number of dimensions")
+    if any(x.shape[ax] != arrays[0].shape[ax] for x in arrays for ax in set(range(arrays[0].ndim)) - {axis}):
+        raise ValueError("all the input array dimensions except for the concatenation axis must match exactly")
     dim = sum(x.shape[axis] for x in arrays)
     shape = list(arrays[0].shape)
     shape[axis] = dim
-    assert all(x.shape[ax] == arrays[0].shape[ax] for x in arrays for ax in set(range(arrays[0].ndim)) - {axis})
     if compressed_axes is None:
         compressed_axes = (axis,)
     if arrays[0].ndim == 1:
@@ -57,7 +60,8 @@ def stack(arrays, axis=0, compressed_axes=None):
     check_consistent_fill_value(arrays)
     arrays = [arr if isinstance(arr, GCXS) else GCXS(arr, compressed_axes=(axis,)) for arr in arrays]
     axis = normalize_axis(axis, arrays[0].ndim + 1)
-    assert all(x.shape[ax] == arrays[0].shape[ax] for x in arrays for ax in set(range(arrays[0].ndim)) - {axis})
+    if len({x.shape for x in arrays}) != 1:
+        raise ValueError("all input arrays must have the same shape")
     if compressed_axes is None:
         compressed_axes = (axis,)
     if arrays[0].ndim == 1:
